@@ -131,18 +131,19 @@ class LabelProbabilityInjector(Injector):
         # handle data type
         ret, (target_col,) = self._preprocess(data, target_col)
 
-        # determine all unique classes and classes not specified in args
+        # determine all unique classes and classes not specified in args; only
+        # the un-specified classes that occur in the window share the remainder,
+        # classes seen only outside the window must not take probability away
         all_classes = np.unique(ret[:, target_col])
-        undefined_classes = [k for k in all_classes if k not in class_probabilities]
+        window_classes = np.unique(ret[from_index:to_index, target_col])
+        undefined_classes = [k for k in window_classes if k not in class_probabilities]
 
         # specified class probabilities must sum to 1 or less
         if sum(class_probabilities.values()) > 1.0:
             raise ValueError(f"Probabilities in {class_probabilities} exceed 1")
 
         # args should not specify previously unseen classes
-        if set(all_classes) != set(
-            list(class_probabilities.keys()) + undefined_classes
-        ):
+        if not set(class_probabilities.keys()) <= set(all_classes):
             raise ValueError(
                 f"Argument {class_probabilities} has classes not found in data {all_classes}"
             )
